@@ -79,7 +79,8 @@ fn op_for_node(node_range: Range<usize>, edit_range: Range<usize>) -> EditOp {
     assert!(edit_range.start >= node_range.start);
     if node_range == edit_range {
         EditOp::Replace
-    } else if edit_range.start > node_range.start && edit_range.end < node_range.end {
+    } else if edit_range.start >= node_range.start && edit_range.end <= node_range.end {
+        // strictly inside this item (it may share one of its ends)
         EditOp::Recurse
     } else {
         assert!(
